@@ -23,6 +23,7 @@ type c12Case struct {
 	Win  uint64    `json:"win"`
 	Ops  [][]int64 `json:"ops"`
 	Sim  *c12SimIn `json:"sim"`
+	Api  *c12ApiIn `json:"api"`
 }
 
 func c12ProfileParams(name string, p Profile) [][3]string {
@@ -114,6 +115,8 @@ func TestVerifC12(t *testing.T) {
 			c12WF(c.Inst, c.Win, c.Ops, res)
 		case "sim":
 			c12Sim(c.Sim, res)
+		case "api":
+			c12Api(c.Api, res)
 		default:
 			t.Fatalf("unknown case kind %q", c.K)
 		}
